@@ -52,7 +52,7 @@ Arrivals ==
   [t : {"piece"}, m : Msgs, k : 1..3] \cup [t : {"wrongtotal"}, m : Msgs, k : 1..3]
   \cup [t : {"zero", "nzero", "beyond", "foreign", "stranger", "garbage", "whole"}, m : {"M"}, k : {1}]
   \cup [t : {"otherformat"}, m : {"M"}, k : {1, 3}]
-  \cup [t : {"errormsg", "query"}, m : {"M"}, k : {1}]
+  \cup [t : {"errormsg", "query", "nested"}, m : {"M"}, k : {1}]
 
 VARIABLES k, n,      \* reassembly context: index and total (0, 0 = empty)
           buf,       \* which pieces the buffer holds: sequence of <<message, index>>
@@ -84,6 +84,10 @@ Arrive(a) ==
   /\ CASE a.t \in {"foreign", "garbage", "otherformat", "errormsg"} -> UNCHANGED <<k, n, buf, processed, bound>>
        \* an OTR error message in between is handed to the user and leaves the reassembly alone; any other
        \* whole message (a text, a query) ends it
+       \* a complete one-piece fragment of the peer's whose payload again begins like a fragment (and is not a
+       \* valid one): the outer one ends the reassembly in progress, the inner one is refused
+       [] a.t = "nested" -> IF bound = 2 THEN UNCHANGED <<k, n, buf, processed, bound>>
+                            ELSE /\ k' = 0 /\ n' = 0 /\ buf' = <<>> /\ bound' = 1 /\ UNCHANGED processed
        [] a.t = "query" -> /\ k' = 0 /\ n' = 0 /\ buf' = <<>> /\ UNCHANGED <<processed, bound>>
        \* "otherformat": a well-formed fragment (first / completing piece) in the header format of the other
        \* protocol version is not a fragment of this conversation
